@@ -164,3 +164,26 @@ Proof.
     + intros kv [<-|[<-|[]]]; simpl; auto.
     + repeat constructor; simpl; intuition discriminate.
 Qed.
+
+(* non-vacuity of C13_step_partial: a field-name transformation gated by two groups, applied to a rule
+   with two detection items, satisfies every premise, and the step changes exactly one of them *)
+Definition ex_item : item :=
+  {| i_id := [109]; i_tr := TSuffix [95; 83];
+     i_rule := {| n_conds := [([], RIsRule)]; n_mode := MLink LOr; n_neg := false |};
+     i_det := {| n_conds := []; n_mode := MLink LAnd; n_neg := false |};
+     i_field := {| n_conds := [([120], FInclude [[97]]); ([121], FState [107] (SInt 1) OEq)];
+                   n_mode := MExpr (EAnd (EId [120]) (ENot (EId [121]))); n_neg := false |} |}.
+Example C13_step_inhabited :
+  wf_ngroup (i_rule ex_item) /\ wf_ngroup (i_det ex_item) /\ wf_ngroup (i_field ex_item) /\
+  tracking_safe ex_item = true /\ no_one_to_many ex_item = true /\
+  exists w', step ex_item (world1 [[97]] [leaf [97] [VStr [120]]; leaf [98] [VNum 1%Z]]) = Ok (w', true) /\
+             r_fields (w_rule w') = [[97; 95; 83]] /\
+             r_dets (w_rule w') = [([115], DNode [DLeaf {| d_field := Some [97; 95; 83]; d_vals := [VStr [120]]; d_applied := [[109]] |};
+                                                 leaf [98] [VNum 1%Z]])].
+Proof.
+  repeat split; try exact I.
+  - intros i [<-|[<-|[]]]; vm_compute; discriminate.
+  - intros kv [<-|[<-|[]]]; simpl; auto.
+  - repeat constructor; simpl; intuition discriminate.
+  - eexists. split; [vm_compute; reflexivity|]. split; reflexivity.
+Qed.
